@@ -64,8 +64,10 @@ def describe_query(q, got):
 def coverage_counts(out):
     """action name -> generated count from TLC's -coverage output (last report)."""
     counts = {}
-    for m in re.finditer(r"^<(\w+) line \d+, col \d+ to line \d+, col \d+ of module QueryLog>: (\d+):(\d+)$", out, re.M):
-        counts[m.group(1)] = int(m.group(3))
+    last = out.rfind("The coverage statistics at")
+    for m in re.finditer(r"^<(\w+) line \d+, col \d+ to line \d+, col \d+ of module QueryLog(?: \([\d ]+\))?>: (\d+):(\d+)$",
+                         out[max(last, 0):], re.M):
+        counts[m.group(1)] = counts.get(m.group(1), 0) + int(m.group(3))
     return counts
 
 
@@ -105,12 +107,14 @@ def build_graph(vectors):
         if o:
             full = sorted(o["full"], key=lambda r: (not (r[3] == "none" and r[4] == "none"), r[3], r[4]))
             seen = set()
-            for r in full + o["deflt"] + o["chains"] + o["offs"] + o["curs"] + o["odd"]:
+            tagged = [(r, "f") for r in full] + [(r, "d") for r in o["deflt"]] + [(r, "c") for r in o["chains"]] \
+                + [(r, "o") for r in o["offs"]] + [(r, "u") for r in o["curs"]] + [(r, "x") for r in o["odd"]]
+            for r, tag in tagged:
                 pk = json.dumps(r[:5])
                 if pk in seen:
                     continue
                 seen.add(pk)
-                flat.append(r)
+                flat.append(r + [tag])
         rows.append({"k": "s", "id": i, "st": states[key], "obs": flat})
     groups = []
     for (src, act, args), dsts in sorted(edges.items()):
@@ -128,7 +132,7 @@ def run_walks(ctx, table, rows, groups, inits, budget, workers=5):
     cfg = {"k": "c", "budget": budget, "walklen": 40, "inits": inits, "workers": workers}
     vlib.write_ndjson(vin, [table, cfg] + rows + groups)
     rc, out = ctx.go_test(PKG, FILES, "^TestZZVerifC07Walk$", env={"VERIF_IN": vin, "VERIF_OUT": vout},
-                          timeout=900, go_timeout="14m")
+                          timeout=1500, go_timeout="24m")
     res = vlib.read_ndjson(vout)
     summ = [r for r in res if r.get("kind") == "summary"]
     if rc != 0 or not summ:
@@ -180,6 +184,25 @@ def validate_history(ctx, hist, rows):
         if v.get("k") == "bad":
             wants[v["line"]] = v["want"]
     return lines, verdict[-1], wants
+
+
+def corrupted_line_is_rejected(ctx, lines, verdict):
+    """Binding demonstration for direction B: drop one id from an accepted search reply of the
+    recorded trace; TraceQueryLog must reject exactly that line."""
+    cut = lines[:min(len(lines), 400)]
+    bad = set(verdict["bad"])
+    stuck = verdict["stuck"] or len(lines) + 1
+    for i, e in enumerate(cut):
+        if e["ev"] == "search" and e["r"]["st"] == "ok" and len(e["r"]["data"]) >= 2 and (i + 1) not in bad \
+                and i + 1 < stuck and e["p"]["limit"] >= 1 and e["p"]["offset"] >= 0 and e["p"]["older"] == 0:
+            mut = json.loads(json.dumps(cut))
+            mut[i]["r"]["data"] = mut[i]["r"]["data"][1:]
+            _, v2, _ = validate_history(ctx, 900, mut)
+            if (i + 1) not in v2["bad"]:
+                raise vlib.Inconclusive("trace validation accepted a corrupted search reply (line %d)" % (i + 1))
+            return {"corrupted_trace_line": i + 1, "rejected": True,
+                    "request": e["p"], "real_reply": e["r"]["data"], "corrupted_reply": mut[i]["r"]["data"]}
+    raise vlib.Inconclusive("no search line suitable for the corrupted-trace demonstration")
 
 
 # ------------------------------------------------------------------ main
@@ -234,7 +257,7 @@ def _run_bindings(ctx):
     nstates_obs = sum(1 for r in rows if r["obs"])
     ctx.log("graph: %d states (%d with observation tables), %d edge groups, %d initial states" % (
         len(rows), nstates_obs, len(groups), len(inits)))
-    budget = 9000 if ctx.quick else 0
+    budget = 4500 if ctx.quick else 0
     res, summ = run_walks(ctx, table, rows, groups, inits, budget)
     ctx.log("walks: %s" % json.dumps({k: summ[k] for k in ("walks", "steps", "queries", "covered", "groups", "bad", "flaky", "discards")}))
 
@@ -280,6 +303,7 @@ def _run_bindings(ctx):
 
     # ---------------- direction B
     nhist, nrec = (2, 300) if ctx.quick else (4, 2000)
+    binding_demo = None
     tlines = tbad = tflaky = 0
     tbytes = 0
     tsamples = []
@@ -297,6 +321,8 @@ def _run_bindings(ctx):
                 ctx.disagreement(None, {"dir": "B", "what": "payload", "hist": hst, "seed": ctx.seed, "detail": r["d"]},
                                  "payload differs in history %d: %s" % (hst, json.dumps(r["d"])[:300]))
         lines, verdict, wants = validate_history(ctx, hst, rows_b)
+        if hst == 0:
+            binding_demo = corrupted_line_is_rejected(ctx, lines, verdict)
         tlines += len(lines)
         tbytes += sb.get("bytes", 0)
         if hst == 0:
@@ -364,6 +390,7 @@ def _run_bindings(ctx):
         "trace_histories": nhist, "trace_records_per_history": nrec, "trace_lines": tlines,
         "trace_lines_rejected": tbad, "trace_file_bytes": tbytes,
         "truncated_by_known_finding": 0,
+        "binding_demo": binding_demo,
         "exhaustive": exhaustive,
         "samples": [groups[0], groups[len(groups) // 2], {"state": rows[len(rows) // 2]["st"], "table_rows": rows[len(rows) // 2]["obs"][:3]}]
                    + sample_bad + [{"trace_line": s} for s in tsamples],
